@@ -1,4 +1,5 @@
 \* the code as it is, a server WITHOUT a validator (jsonrpc.NewServer alone): the same typed alphabet; validate tags bind nobody.
+\* measured: 18 532 distinct states, 4 633 rows (4-5 s)
 CONSTANTS
   Methods <- MCMethods
   EntryAlphabet <- EntriesTyped
@@ -10,6 +11,7 @@ CONSTANTS
   FixNonRequest = FALSE
   FixLongWs = TRUE
   FarChoices = {FALSE}
+  FixNullRequired = FALSE
   HasValidator = FALSE
   NilPointerSkipsValidation = TRUE
 INIT TableInit
